@@ -221,6 +221,7 @@ def _execute(case, prefix, seed):
     boot.urandom.reset(seed, b"c14-exec")
     ms.reset_clock()
     g = grid.Grid(S, nclients=2, chooser=ch, client_kw=dict(k=K, n=n, happy=1))
+    g.sched.batch = bool(case.get("batch"))     # turn granularity, see grid.Sched.batch
     viol, obs = [], {}
     ms.bound_pending(g)
     try:
@@ -429,6 +430,10 @@ def run(tier, seed):
                 cs = cases_for(fmt, n, states, modes)
             # v4 on >= k slots makes v4 the best version: kept (the oracle is general), nothing excluded
             cases += cs
+            if d == 0 and n == 3 and not modes[0].endswith("@async"):
+                # several answers per reactor turn (grid.Sched.batch): every second case again
+                cases += [dict(c, batch=True) for c in cs[::2]]
+                desc.append("  + %d of them with several answers delivered per reactor turn" % len(cs[::2]))
             desc.append("%s 2-of-%d: %d^%d layouts x verify{F,T} x %s = %d at d<=%d" % (fmt, n, len(states), n, "/".join(modes), len(cs), d))
         res.merge(common.pmap(chunk, cases, (seed, d), chunks=max(1, min(len(cases), common.NWORKERS * 8))))
     execs = res.counts.get("executions", 0)
